@@ -34,15 +34,29 @@ def excess_offset(enc, maxb):
     return None
 
 
+def part_headers(part):
+    """the header block of a part (name, filename|None, value[, extra header lines])"""
+    name, fn = part[0], part[1]
+    h = b'Content-Disposition: form-data; name="' + name + b'"'
+    if fn is not None:
+        h += b'; filename="' + fn + b'"\r\nContent-Type: application/octet-stream'
+    for x in (part[3] if len(part) > 3 else []):
+        h += b'\r\n' + x
+    return h
+
+
 def multipart(boundary, parts):
-    """parts: (name, filename|None, value bytes)"""
+    """parts: (name, filename|None, value bytes[, extra header lines])"""
     out = b''
-    for name, fn, val in parts:
-        out += b'--' + boundary + b'\r\nContent-Disposition: form-data; name="' + name + b'"'
-        if fn is not None:
-            out += b'; filename="' + fn + b'"\r\nContent-Type: application/octet-stream'
-        out += b'\r\n\r\n' + val + b'\r\n'
+    for p in parts:
+        out += b'--' + boundary + b'\r\n' + part_headers(p) + b'\r\n\r\n' + p[2] + b'\r\n'
     return out + b'--' + boundary + b'--\r\n'
+
+
+def in_memory_need(parts):
+    """what the property counts against max_memfile_size: every part's header block, and the values of
+    the text parts (file data stays in the buffered body)"""
+    return sum(len(part_headers(p)) + (len(p[2]) if p[1] is None else 0) for p in parts)
 
 
 class C13(Check):
@@ -129,6 +143,17 @@ class C13(Check):
                 out.append((bl.line_wsgi(mk, buf, maxb, clh, te, raw, sched, ops), bl.ans_wsgi(res),
                             dict(kind='wsgi', ops=ops, map=mk, cl_header=clh, **sample)))
                 bl.bump(st, f'wsgi:{"".join(ops)}:status{res["status"]}')
+        # the in-memory budget of multipart parts (header blocks of text AND file parts, text values) through the
+        # model of FieldStorage.read / iter_items (Model/Forms.lean, `forms items`): real markup, real iter_items
+        from harness.c07 import real_markups, run_items, markups_arg
+        for c in self._gen_cases(rng, 0, multipart_only=max(40, n // 12)):
+            body, bnd, mem = bytes.fromhex(c['payload']), bytes.fromhex(c['boundary']), c['buf']
+            mm = real_markups(bnd, [body[i:i + 97] for i in range(0, len(body), 97)])
+            for mr in {mem, rng.choice([mem - 1, mem + 1, mem // 2, 4 * mem])}:
+                out.append((f'forms items {core.hb(body)} 0 {mr} {markups_arg(mm.markups)}',
+                            run_items(body, False, mm.markups, mr),
+                            dict(kind='items', near=True, what=c['what'], max_read=mr)))
+                bl.bump(st, 'items:' + c['expect'])
         for name in ('RequestError', 'BodyParsingError', 'BodySizeError'):
             for mk in bl.MAPS:
                 out.append((f'body raise {mk} {name}', self._raise(mk, name), dict(kind='raise')))
@@ -227,7 +252,7 @@ class C13(Check):
                 return f'{kind}:json-content', f'{c["what"]}: JSON value differs'
         return None
 
-    def _gen_cases(self, rng, n):
+    def _gen_cases(self, rng, n, multipart_only=0):
         for _ in range(n):
             maxb, buf, payload, chunked, near = self.gen(rng)
             base = dict(max=maxb, buf=buf, payload=payload.hex())
@@ -239,7 +264,7 @@ class C13(Check):
                            trailer=enc.trailer.hex(), sched=bl.gen_sched(rng, max(1, len(raw))))
             else:
                 yield dict(base, probe='cl', tail=rng.choice(['', '', '7461696c']), sched=bl.gen_sched(rng, max(1, len(payload))))
-        for _ in range(max(4, n // 8)):
+        for _ in range(0 if multipart_only else max(4, n // 8)):
             mem = rng.choice([8, 16, 64])
             k = around(rng, mem)
             ch = rng.random() < .5
@@ -256,34 +281,61 @@ class C13(Check):
                 yield dict(probe='json', max=None, buf=mem, payload=body.hex(), chunked=ch, sched=sched, op='J',
                            ctype='application/json', expect='refused' if len(body) > mem else 'accepted',
                            json='j' * (k - 2), what=f'JSON body of {len(body)} bytes, max_memfile_size {mem}')
-        for _ in range(max(4, n // 8)):
+        for _ in range(multipart_only or max(4, n // 8)):
             mem = rng.choice([600, 1024])
             ch = rng.random() < .5
             sched = rng.choice([[], [7, 64, 1] * 30, [200]])
             bnd = rng.choice([b'bnd', b'----WebKitFormBoundaryX1'])
             ctype = 'multipart/form-data; boundary=' + bnd.decode()
-            kind = rng.randrange(4)
+            kind = rng.randrange(8)
             if kind == 0:      # small text fields + a file part far over the threshold
                 fdata = bl.gen_payload(rng, mem * rng.choice([1, 2, 3]) + rng.randint(1, 50))
                 body = multipart(bnd, [(b't', None, b'hello'), (b'f', b'up.bin', fdata)])
-                yield dict(probe='multipart', max=None, buf=mem, payload=body.hex(), chunked=ch, sched=sched, op='U',
+                yield dict(probe='multipart', boundary=bnd.hex(), max=None, buf=mem, payload=body.hex(), chunked=ch, sched=sched, op='U',
                            ctype=ctype, expect='accepted', files={'f': fdata.hex()},
                            what=f'multipart: 5 bytes of text and a {len(fdata)}-byte file part, max_memfile_size {mem}')
             elif kind == 1:    # one text field over the threshold
                 val = b'v' * (mem + rng.choice([1, 2, 50, mem]))
                 body = multipart(bnd, [(b't', None, val)])
-                yield dict(probe='multipart', max=None, buf=mem, payload=body.hex(), chunked=ch, sched=sched, op='F',
+                yield dict(probe='multipart', boundary=bnd.hex(), max=None, buf=mem, payload=body.hex(), chunked=ch, sched=sched, op='F',
                            ctype=ctype, expect='refused',
                            what=f'multipart: text field of {len(val)} bytes, max_memfile_size {mem}')
             elif kind == 2:    # several text fields, each below, together over the threshold
                 val = b'w' * (mem // 2 + 1)
                 body = multipart(bnd, [(b'a', None, val), (b'b', None, val), (b'c', None, b'z')])
-                yield dict(probe='multipart', max=None, buf=mem, payload=body.hex(), chunked=ch, sched=sched, op='F',
+                yield dict(probe='multipart', boundary=bnd.hex(), max=None, buf=mem, payload=body.hex(), chunked=ch, sched=sched, op='F',
                            ctype=ctype, expect='refused',
                            what=f'multipart: two text fields of {len(val)} bytes each, max_memfile_size {mem}')
+            elif kind in (4, 5):   # a FILE part whose header block alone is over / under the threshold
+                over = kind == 4
+                line = b'X-Note: ' + b'n' * ((mem + rng.choice([1, 40, mem])) if over else rng.randint(1, 60))
+                fdata = bl.gen_payload(rng, rng.choice([3, 50, mem + 20]))
+                parts = [(b't', None, b'hi'), (b'f', b'up.bin', fdata, [line])]
+                if rng.random() < .5:
+                    parts.reverse()
+                body = multipart(bnd, parts)
+                yield dict(probe='multipart', boundary=bnd.hex(), max=None, buf=mem, payload=body.hex(), chunked=ch, sched=sched,
+                           op=rng.choice('UF'), ctype=ctype, expect='refused' if over else 'accepted',
+                           what=f'multipart: file part with a {len(line)}-byte header line (in-memory need '
+                                f'{in_memory_need(parts)}), max_memfile_size {mem}')
+            elif kind in (6, 7):   # several file parts: header blocks over the budget only together / well under
+                nfiles = (mem // 95 + 2) if kind == 6 else 2
+                parts = []
+                for i in range(nfiles):
+                    parts.append((b'f%d' % i, b'upload-%d.bin' % i, bl.gen_payload(rng, rng.choice([0, 5, 300]))))
+                    if i % 2 == 0:
+                        parts.append((b't%d' % i, None, b'v%d' % i))
+                body = multipart(bnd, parts)
+                need = in_memory_need(parts)
+                if (kind == 6 and need <= mem + 20) or (kind == 7 and need >= mem // 2):
+                    continue
+                yield dict(probe='multipart', boundary=bnd.hex(), max=None, buf=mem, payload=body.hex(), chunked=ch, sched=sched,
+                           op=rng.choice('UF'), ctype=ctype, expect='refused' if kind == 6 else 'accepted',
+                           what=f'multipart: {nfiles} file parts interleaved with text fields, header blocks and text '
+                                f'need {need} bytes in memory, max_memfile_size {mem}')
             else:              # everything small
                 body = multipart(bnd, [(b'a', None, b'1'), (b'b', None, b'two')])
-                yield dict(probe='multipart', max=None, buf=mem, payload=body.hex(), chunked=ch, sched=sched, op='F',
+                yield dict(probe='multipart', boundary=bnd.hex(), max=None, buf=mem, payload=body.hex(), chunked=ch, sched=sched, op='F',
                            ctype=ctype, expect='accepted', forms={'a': '1', 'b': 'two'},
                            what=f'multipart: two short text fields, max_memfile_size {mem}')
 
